@@ -128,7 +128,7 @@ def interpret_paths(cmds, fname, actual_args, extra_vars, isdir):
 import json, os, subprocess, shutil, time
 import vf
 
-CMAKE_FILE = "/repo/cmake/cminx.cmake"
+CMAKE_FILE = os.path.join(vf.REPO, "cmake", "cminx.cmake")
 
 
 def spec_ok(call, exe, inp, outp, extra, isdir):
